@@ -18,6 +18,8 @@ CHECKS = {
          "Not decided: that is_last is false for the dummy position for every user pointer (provenance argument, not computed); numeric behaviour of the bump primitives on the dummy range (C11)."),
  "C15": ("Interface discipline of MutBumpVec/MutBumpVecRev/MutBumpString and the *_mut helpers incl. helper functions they reach: only prepare/statistics calls, commit only in finalisers, tabled fast-path exceptions (R1); no position write reachable from the prepare primitives except the lazy reset of a later chunk (R2); drop glue reaches no allocator method (R3); prepared commits and growth copies as affine normal forms relative to the prepared range, up/down x forward/reverse (R4).",
          "Not decided: the numbers (padding bounds), contents of the elements."),
+ "C16": ("Partition identities by affine value numbering on every return path of BumpBox<[T]>/<str>::split_off, FixedBumpVec::split_off, split_at_unchecked, split_first/last, split_at_spare: adjacency, length and capacity sums, ZST arms, rotate amounts; merge form and contiguity gate; into_flattened len*N (R1); range / bound validation dominates pointer arithmetic (R2); the allocator reads no per-block metadata, so sub-blocks are legal blocks (R3).",
+         "Not decided: element contents after rotation (delegated to core::slice::rotate_*), follow-up operation histories on the parts, partition (callback-driven)."),
  "C17": ("Sibling agreement of all entry points: forward_methods! instances call their namesake with parameters in order (R1); reference/wrapper/Bump->scope and foreign-Allocator impls forward to their namesake, exceptions tabled (R2); every m/try_m twin pair has the same normalised callee sequence and argument skeleton (R3); layout hint types only from truthful sources, BumpProps copies hints, fast and slow paths agree on T/len (R4); trait-object helpers use the same primitives (R5).",
          "Not decided: 'same offset and byte count' as numbers (needs the hint-independence of C11's arithmetic); value-level equality of results."),
  "C18": ("Raise: aligning call dominates the type-changing transmute which dominates the closure (R1); lower: BumpAlignGuard constructed before the closure and dropped on return and unwind, its drop aligns with the outer MIN_ALIGN (R2); scoped_aligned takes the checkpoint before aligning (R3); conversions: run-time panics exactly under their stated conditions, shared-borrow conversion writes nothing, the compile-time assertions of every ensure_* are read from the inline-const MIR and every mutable conversion aligns on every path (R4).",
